@@ -47,6 +47,10 @@ type strokeSeg struct {
 	pts    []Pt
 	t0, t1 Pt // unit tangents at the start and at the end
 	curved bool
+	// circle: the segment is an arc of a circle (centre c, radius rad); a straight segment has neither
+	circle bool
+	c      Pt
+	rad    float64
 }
 
 type strokeSub struct {
@@ -82,6 +86,11 @@ func NewStrokeModel(sps []Subpath, n int) *StrokeModel {
 				continue
 			}
 			sg := strokeSeg{pts: pts, curved: s.Kind != CmdLine && s.Kind != CmdClose}
+			if s.Kind == CmdArc && s.Rx == s.Ry {
+				if c, _, _, rx, _, st := ArcGeom(s); st == ArcOK || st == ArcHalf {
+					sg.circle, sg.c, sg.rad = true, c, rx
+				}
+			}
 			if sg.curved {
 				const h = 1e-6
 				sg.t0 = unit(s.At(h).Sub(s.P0))
@@ -235,6 +244,11 @@ func (m *StrokeModel) Classify(s Pt, spec StrokeSpec) (v int, why string) {
 				}
 				continue
 			}
+			if !reversal && !straight && (spec.Join == JoinArcs || spec.Join == JoinArcsClip) {
+				if arcsJoinCovers(a, b, V, nA, nB, s, r, mg, spec.Limit) {
+					return 1, "join"
+				}
+			}
 			if reversal || (!straight && (spec.Join == JoinArcs || spec.Join == JoinArcsClip)) {
 				continue
 			}
@@ -283,6 +297,131 @@ func (m *StrokeModel) Classify(s Pt, spec StrokeSpec) (v int, why string) {
 		return -1, "outside"
 	}
 	return 0, ""
+}
+
+// offsetCurve is the outer offset of a segment at a join, extended beyond the vertex: a circle
+// (ok) or a straight line (the segment is straight).
+type offsetCurve struct {
+	line   bool
+	p, n   Pt      // line: a point on it and the outward normal
+	c      Pt      // circle: centre
+	R      float64 // circle: radius of the offset
+	inside bool    // circle: the stroke lies inside the offset circle (|q-c| <= R)
+}
+
+func outerOffset(sg *strokeSeg, V, n Pt, r float64) (offsetCurve, bool) {
+	if !sg.curved {
+		return offsetCurve{line: true, p: V.Add(n.Mul(r)), n: n}, true
+	}
+	if !sg.circle {
+		return offsetCurve{}, false
+	}
+	if V.Sub(sg.c).Dot(n) > 0 { // the outer side points away from the centre
+		return offsetCurve{c: sg.c, R: sg.rad + r, inside: true}, true
+	}
+	if sg.rad-r <= 0 {
+		return offsetCurve{}, false
+	}
+	return offsetCurve{c: sg.c, R: sg.rad - r}, true
+}
+
+// strokeSide is the distance by which q lies on the stroke's side of the offset curve (negative beyond it).
+func (o offsetCurve) strokeSide(q Pt) float64 {
+	if o.line {
+		return -q.Sub(o.p).Dot(o.n)
+	}
+	if o.inside {
+		return o.R - q.Dist(o.c)
+	}
+	return q.Dist(o.c) - o.R
+}
+
+// arcsJoinCovers: the arcs join of two segments that are straight or arcs of circles is the area
+// between the two outer offset curves, continued beyond the vertex until they meet. q is claimed
+// (must be inside the stroke) only when that meeting point exists within the limit, q lies in the
+// cone between the two end normals, on the stroke's side of both continued offset curves by the
+// margin, and no further from the vertex than the meeting point.
+func arcsJoinCovers(a, b *strokeSeg, V, nA, nB, q Pt, r, mg, limit float64) bool {
+	oa, ok1 := outerOffset(a, V, nA, r)
+	ob, ok2 := outerOffset(b, V, nB, r)
+	if !ok1 || !ok2 {
+		return false
+	}
+	dv := q.Sub(V)
+	if dv.Dot(a.t1) < mg || dv.Dot(b.t0) > -mg {
+		return false // not (clearly) in the cone beyond the end of a and before the start of b
+	}
+	if oa.strokeSide(q) < mg || ob.strokeSide(q) < mg {
+		return false
+	}
+	// the meeting point: walk along the bisector direction from the vertex and look for the point
+	// of the cone that lies on both curves (bisection on the curve a, parametrised by the angle
+	// in the cone)
+	tip, found := Pt{}, false
+	n := nA.Add(nB)
+	if n.Len() == 0 {
+		return false
+	}
+	// sample directions in the cone; on each ray the boundary of the covered area is the nearer of
+	// the two offset curves; the meeting point is where they swap
+	const K = 720
+	prev := 0.0
+	for k := 0; k <= K; k++ {
+		t := float64(k) / K
+		d := unit(nA.Mul(1 - t).Add(nB.Mul(t)))
+		ra, okA := rayHit(V, d, oa)
+		rb, okB := rayHit(V, d, ob)
+		if !okA || !okB {
+			return false
+		}
+		diff := ra - rb
+		if k > 0 && (diff == 0 || (diff > 0) != (prev > 0)) {
+			tip, found = V.Add(d.Mul(math.Min(ra, rb))), true
+			break
+		}
+		prev = diff
+	}
+	if !found {
+		return false
+	}
+	reach := tip.Dist(V)
+	if reach > limit*r*(1-1e-3) {
+		return false // bevelled or clipped: not claimed
+	}
+	return dv.Len() <= reach
+}
+
+// rayHit: the distance from V along the unit direction d to the offset curve (the first crossing
+// beyond the immediate neighbourhood of V's own offset points).
+func rayHit(V, d Pt, o offsetCurve) (float64, bool) {
+	if o.line {
+		den := d.Dot(o.n)
+		if den <= 1e-12 {
+			return 0, false
+		}
+		return o.p.Sub(V).Dot(o.n) / den, true
+	}
+	// |V + s d - c|^2 = R^2
+	f := V.Sub(o.c)
+	bq := f.Dot(d)
+	cq := f.Dot(f) - o.R*o.R
+	disc := bq*bq - cq
+	if disc < 0 {
+		return 0, false
+	}
+	sq := math.Sqrt(disc)
+	s1, s2 := -bq-sq, -bq+sq
+	if o.inside { // V is inside the circle: the exit point
+		if s2 <= 0 {
+			return 0, false
+		}
+		return s2, true
+	}
+	// V is outside the (smaller) circle: the entry point, if the ray meets it
+	if s1 <= 0 {
+		return 0, false
+	}
+	return s1, true
 }
 
 // beyondButtCut reports whether s lies past the end plane of an open subpath's end and within
